@@ -84,7 +84,9 @@ def confirm(dirs):
         sh("git -C %s worktree remove --force %s" % (REPO, wt))
 
 
-KANI_FILES = {"src/tabs.rs": "C18", "src/terminal/dirty_lines.rs": "C15", "src/parser.rs": "C03", "src/line.rs": "C10", "src/buffer.rs": "C10"}
+KANI_FILES = {"src/tabs.rs": "C18"}
+if os.environ.get("MUTANTS_KANI_ALL"):
+    KANI_FILES.update({"src/terminal/dirty_lines.rs": "C15", "src/parser.rs": "C03", "src/line.rs": "C10", "src/buffer.rs": "C10", "src/vt.rs": "C12", "src/terminal.rs": "C13"})
 
 
 def run(ids):
